@@ -6,12 +6,40 @@ from __future__ import absolute_import, division
 import json
 import re
 from datetime import date, datetime
+from decimal import Decimal
 
 # This is a hack to determine the type of object that re.compile returns, since the type
 #    "re.RegexObject" mentioned in the official Python documentation doesn't actually exist.
 # Could alternatively use "re._pattern_type" (undocumented and marked private)
 #    or the following in 3.6: "from typing import Pattern"
 REGEX_TYPE = type(re.compile(""))
+
+
+def formatNumber(value):
+    """
+    Format a number for use as a Gcode parameter value, never using exponent notation.
+
+    Firmware such as Marlin does not understand exponents ("E1e-05" is read as "E1"), so very
+    small or very large values must be written in plain decimal notation ("0.00001").
+
+    Parameters
+    ----------
+    value : number
+        The value to format.
+
+    Returns
+    -------
+    string
+        The same text as str(value), unless that text would contain an exponent.
+    """
+    text = str(value)
+    if (not isinstance(value, str) and (("e" in text) or ("E" in text))):
+        try:
+            text = format(Decimal(text), "f")
+        except ArithmeticError:
+            pass
+
+    return text
 
 
 class JsonEncoder(json.JSONEncoder):
